@@ -152,7 +152,7 @@ func coordsDigest(cs []C3) string {
 // meshQuery answers read-only query q on mesh m (own triangle list ts) as a digest.
 func meshQuery(m *model3d.Mesh, ts []*model3d.Triangle, q int, i int) string {
 	t := ts[i%len(ts)]
-	switch q % 12 {
+	switch q % 14 {
 	case 0:
 		return "Find1:" + trisDigest(m.Find(t[0]))
 	case 1:
@@ -182,6 +182,24 @@ func meshQuery(m *model3d.Mesh, ts []*model3d.Triangle, q int, i int) string {
 	case 10:
 		m.Blur(0.3) // summation order follows map iteration: executed, not compared
 		return "Blur"
+	case 12, 13:
+		// a sorted traversal with the caller's own comparator is a read like any other
+		ax := i % 3
+		if q%14 == 13 {
+			ax = (i + 1) % 3
+		}
+		var all []*model3d.Triangle
+		sorted := true
+		var prev *model3d.Triangle
+		key := func(x *model3d.Triangle) float64 { return x[0].Array()[ax] + x[1].Array()[ax] + x[2].Array()[ax] }
+		m.IterateSorted(func(x *model3d.Triangle) {
+			if prev != nil && key(prev) > key(x) {
+				sorted = false
+			}
+			prev = x
+			all = append(all, x)
+		}, func(a, b *model3d.Triangle) bool { return key(a) < key(b) })
+		return fmt.Sprint("IterateSorted:", sorted, trisDigest(all))
 	default:
 		return fmt.Sprint("Contains:", m.Contains(t), len(m.TriangleSlice()))
 	}
@@ -210,6 +228,7 @@ func workloads() []workload {
 		{"uv-mapfn", "model3d.MeshUVMap.MapFn: one lookup function shared by all goroutines (the texture-fill pattern)", wMapFn},
 		{"cache-many-keys", "model2d.CacheScalarFunc / BezierCurve.CachedEvalX shared by all goroutines and asked for several hundred thousand distinct arguments", wCacheManyKeys},
 		{"large-builds", "NewBVHAreaDensity / MeshToCollider / MeshToSDF / NewCoordTree over more than 20000 objects (2D and 3D): builds are deterministic, complete and race-free, then queried concurrently", wLargeBuilds},
+		{"participating-medium", "render3d.ParticipatingMedium.Cast on one shared medium object, directly and inside a render", wMedium},
 		{"joined-shared-child", "model3d.NewJoinedCollider: several goroutines build and query their own join over one shared child collider", wJoinedSharedChild},
 	}
 }
@@ -223,7 +242,7 @@ func wMesh3(w *wctx) {
 	plans := make([][]q, w.gos)
 	for g := range plans {
 		for k := 0; k < nq; k++ {
-			plans[g] = append(plans[g], q{w.rng.Intn(12), w.rng.Intn(len(ts))})
+			plans[g] = append(plans[g], q{w.rng.Intn(14), w.rng.Intn(len(ts))})
 		}
 	}
 	want := make([][]string, w.gos)
